@@ -428,6 +428,14 @@ def lab_run(task, spec, args):
     value = encode(kind, h)
     if fault_kind == 'unserializable' and kind in ('json_dict', 'json_list'):
         value = {'prov': h, 'bad': Unserializable()} if kind == 'json_dict' else ['prov', h, Unserializable()]
+    if fault_kind == 'non_ascii':
+        # (not a failure of run: the result holds text outside ASCII; whether it can be stored depends on the process's locale)
+        if isinstance(value, dict):
+            value = dict(value, label='žluťoučký kůň')
+        elif isinstance(value, list):
+            value = value + ['žluťoučký kůň']
+        elif isinstance(value, str):
+            value += ' žluťoučký kůň'
     if kind in ('generator', 'empty_gen'):
         def gen():
             for j, item in enumerate(value):
